@@ -9,6 +9,7 @@ CONSTANTS
   CopyArgs = TRUE
   HtmlDep = FALSE
   LazyInit = FALSE
+  PoolBuf = FALSE
 INVARIANT Conforms
 POSTCONDITION AcceptedLinear
 CHECK_DEADLOCK FALSE
